@@ -12,11 +12,13 @@ import DarkluaModel.Rules.EmptyDo
   corollaries `runDefault_exact`, `runScoped_exact`; worked instance `EmptyDo.apply_exact`.
 
 * Stage 2 (this file): no restriction on functions. `HooksExact P` ⇒ `visit_R`: the pass output is
-  `R`-related to the input (`R` = congruence closure of exact steps, also under function bodies,
-  `VisitorSound/Rel.lean`), and by the fundamental theorem of `R` (`Sem.fund`, `Sem.runProgram_rel`)
-  ⇒ `visit_refines`: equal observable outcome (`Sem.runProgram`: returned / raised canonical
-  values and the trace of external calls) for every oracle, call level and extern list.
-  Corollaries `runDefault_refines`, `runScoped_refines`; instance `EmptyDo.apply_refines`.
+  `R false`-related to the input (`R md` = congruence closure of the steps, also under function
+  bodies, `VisitorSound/Rel.lean`), and by the fundamental theorem of `R` (`Sem.fund`,
+  `Sem.runProgram_rel`) ⇒ `visit_refines`: equal observable outcome (`Sem.runProgram`: returned /
+  raised canonical values and the trace of external calls) for every oracle, call level and extern
+  list. Corollaries `runDefault_refines`, `runScoped_refines`; instance `EmptyDo.apply_refines`.
+  Timeout-relaxed variant (`HooksLe true`, for rules that delete loops): `visit_upto`,
+  `runDefault_upto`, `runScoped_upto` — equal outcome unless the original exhausts its budget.
 
 Recipe for a rule builder: see the `EmptyDo` section at the end.
 -/
@@ -120,7 +122,54 @@ theorem Sem.EqB.runProgram_eq {b b' : Block} (h : EqB b b') {N : NumOps} (ρ : E
 
 /-! ## Stage 2: programs with functions — observational equality -/
 
-theorem HooksExact.toClosureRel (H : HooksExact P) : HooksRel closureFam P where
+/-- closes the obligation of an identity hook in `HooksLe` -/
+macro "hook_id_le" : tactic =>
+  `(tactic| (intros; first
+      | exact LeE.refl _ | exact LeT.refl _ | exact LeS.refl _ | exact LeL.refl _ | exact LeB.refl _
+      | exact ⟨LeE.refl _, LeT.refl _⟩ | rfl | assumption))
+
+/-- `HooksExact` with the step relations `LeE md` … : for `md = true` every hook may also map a node
+that exhausts its budget to anything ("the original times out, or the new node behaves exactly
+like it") — what loop-deleting rules satisfy. `HooksLe false` is `HooksExact`. -/
+structure HooksLe {σ : Type} (md : Bool) (P : Processor σ) : Prop where
+  expr : ∀ e s, LeE md e (P.expr e s).1 := by hook_id_le
+  pref : ∀ e s, LeE md e (P.pref e s).1 := by hook_id_le
+  target : ∀ e s, LeT md e (P.target e s).1 := by hook_id_le
+  node : ∀ e s, LeE md e (P.node e s).1 ∧ LeT md e (P.node e s).1 := by hook_id_le
+  afterNode : ∀ e s, LeE md e (P.afterNode e s).1 ∧ LeT md e (P.afterNode e s).1 := by hook_id_le
+  stmt : ∀ x s, LeS md x (P.stmt x s).1 := by hook_id_le
+  stmtNode : ∀ x s, LeS md x (P.stmtNode x s).1 := by hook_id_le
+  afterStmtNode : ∀ x s, LeS md x (P.afterStmtNode x s).1 := by hook_id_le
+  last : ∀ x s, LeL md x (P.last x s).1 := by hook_id_le
+  block : ∀ b s, LeB md b (P.block b s).1 := by hook_id_le
+  afterBlock : ∀ b s, LeB md b (P.afterBlock b s).1 := by hook_id_le
+  scopeB : ∀ b c s, LeB md b (P.scope b c s).1.1 := by hook_id_le
+  scopeC : ∀ b c s, LeE md c ((P.scope b (some c) s).1.2.getD c) := by hook_id_le
+  insert : ∀ n s, (P.insert n s).1 = n := by hook_id_le
+  insertLocalName : ∀ n v s, (P.insertLocal n v s).1.1 = n := by hook_id_le
+  insertLocalVal : ∀ n v s, LeE md v ((P.insertLocal n (some v) s).1.2.getD v) := by hook_id_le
+  insertLocalFn : ∀ n s, (P.insertLocalFn n s).1 = n := by hook_id_le
+
+theorem HooksExact.toLe (H : HooksExact P) (md : Bool) : HooksLe md P where
+  expr := fun e s => (H.expr e s).le
+  pref := fun e s => (H.pref e s).le
+  target := fun e s => (H.target e s).le
+  node := fun e s => ⟨(H.node e s).1.le, (H.node e s).2.le⟩
+  afterNode := fun e s => ⟨(H.afterNode e s).1.le, (H.afterNode e s).2.le⟩
+  stmt := fun e s => (H.stmt e s).le
+  stmtNode := fun e s => (H.stmtNode e s).le
+  afterStmtNode := fun e s => (H.afterStmtNode e s).le
+  last := fun e s => (H.last e s).le
+  block := fun e s => (H.block e s).le
+  afterBlock := fun e s => (H.afterBlock e s).le
+  scopeB := fun b c s => (H.scopeB b c s).le
+  scopeC := fun b c s => (H.scopeC b c s).le
+  insert := H.insert
+  insertLocalName := H.insertLocalName
+  insertLocalVal := fun n v s => (H.insertLocalVal n v s).le
+  insertLocalFn := H.insertLocalFn
+
+theorem HooksLe.toClosureRel {md : Bool} (H : HooksLe md P) : HooksRel (closureFam md) P where
   expr := fun e s => .stepE (H.expr e s) (R.reflE _)
   pref := fun e s => .stepE (H.pref e s) (R.reflE _)
   target := fun e s => .stepT (H.target e s) (R.reflT _)
@@ -139,15 +188,19 @@ theorem HooksExact.toClosureRel (H : HooksExact P) : HooksRel closureFam P where
   insertLocalVal := fun n v s => .stepE (H.insertLocalVal n v s) (R.reflE _)
   insertLocalFn := H.insertLocalFn
 
-/-- a pass with `R`-respecting hooks (in particular exactly sound hooks) maps a block to an
-`R`-related block — any block, functions included -/
-theorem Visitor.visit_R_of_rel (H : HooksRel closureFam P) (sc : Bool) (fuel : Nat) (pushes : Bool)
-    (b : Block) (s : σ) : R (.b b) (.b (Visitor.visitBlock P sc fuel pushes b s).1) :=
-  Visitor.visit_rel (C := closureFam) H sc fuel pushes b s
+/-- a pass whose hooks respect `R md` (weakest hypothesis: hooks may themselves rewrite inside
+function bodies) maps a block to an `R md`-related block — any block, functions included -/
+theorem Visitor.visit_R_of_rel {md : Bool} (H : HooksRel (closureFam md) P) (sc : Bool) (fuel : Nat)
+    (pushes : Bool) (b : Block) (s : σ) : R md (.b b) (.b (Visitor.visitBlock P sc fuel pushes b s).1) :=
+  Visitor.visit_rel (C := closureFam md) H sc fuel pushes b s
+
+theorem Visitor.visit_R_le {md : Bool} (H : HooksLe md P) (sc : Bool) (fuel : Nat) (pushes : Bool) (b : Block)
+    (s : σ) : R md (.b b) (.b (Visitor.visitBlock P sc fuel pushes b s).1) :=
+  Visitor.visit_R_of_rel H.toClosureRel sc fuel pushes b s
 
 theorem Visitor.visit_R (H : HooksExact P) (sc : Bool) (fuel : Nat) (pushes : Bool) (b : Block) (s : σ) :
-    R (.b b) (.b (Visitor.visitBlock P sc fuel pushes b s).1) :=
-  Visitor.visit_R_of_rel H.toClosureRel sc fuel pushes b s
+    R false (.b b) (.b (Visitor.visitBlock P sc fuel pushes b s).1) :=
+  Visitor.visit_R_le (H.toLe false) sc fuel pushes b s
 
 /-- **Stage 2 lifting theorem.** If every hook of `P` is exactly meaning-preserving, then running
 the visited program is observationally the same as running the original: same returned (or raised)
@@ -167,6 +220,27 @@ theorem Visitor.runScoped_refines (H : HooksExact P) (b : Block) (s : σ)
     {N : NumOps} (ρ : ExtOracle N) (n : Nat) (externs : List String) :
     runProgram ρ n externs (Visitor.runScoped P b s).1 = runProgram ρ n externs b :=
   Visitor.visit_refines H true _ true b s ρ n externs
+
+/-- **Stage 2, timeout-relaxed.** Hooks that are sound up to budget exhaustion of the original
+(`HooksLe true`): the visited program has the same outcome whenever the original program finishes
+within its budget. -/
+theorem Visitor.visit_upto (H : HooksLe true P) (sc : Bool) (fuel : Nat) (pushes : Bool) (b : Block) (s : σ)
+    {N : NumOps} (ρ : ExtOracle N) (n : Nat) (externs : List String) :
+    runProgram ρ n externs b = .timeout ∨
+      runProgram ρ n externs (Visitor.visitBlock P sc fuel pushes b s).1 = runProgram ρ n externs b :=
+  runProgram_upto ρ n externs (Visitor.visit_R_le H sc fuel pushes b s)
+
+theorem Visitor.runDefault_upto (H : HooksLe true P) (b : Block) (s : σ)
+    {N : NumOps} (ρ : ExtOracle N) (n : Nat) (externs : List String) :
+    runProgram ρ n externs b = .timeout ∨
+      runProgram ρ n externs (Visitor.runDefault P b s).1 = runProgram ρ n externs b :=
+  Visitor.visit_upto H false _ true b s ρ n externs
+
+theorem Visitor.runScoped_upto (H : HooksLe true P) (b : Block) (s : σ)
+    {N : NumOps} (ρ : ExtOracle N) (n : Nat) (externs : List String) :
+    runProgram ρ n externs b = .timeout ∨
+      runProgram ρ n externs (Visitor.runScoped P b s).1 = runProgram ρ n externs b :=
+  Visitor.visit_upto H true _ true b s ρ n externs
 
 /-! ## Worked instance: `remove_empty_do`
 
@@ -226,9 +300,9 @@ theorem apply_runProgram (b : Block) (hb : b.noFn = true) {N : NumOps} (ρ : Ext
 
 /-! stage 2: no restriction on the program -/
 
-theorem pass_R (b : Block) : R (.b b) (.b (pass b).1) := Visitor.visit_R hooksExact false _ true b false
+theorem pass_R (b : Block) : R false (.b b) (.b (pass b).1) := Visitor.visit_R hooksExact false _ true b false
 
-theorem loop_R : ∀ (n : Nat) (b : Block), R (.b b) (.b (loop n b))
+theorem loop_R : ∀ (n : Nat) (b : Block), R false (.b b) (.b (loop n b))
   | 0, b => R.reflB b
   | n + 1, b => by
     simp only [loop]
@@ -273,4 +347,59 @@ example : apply sample =
 example : EqB sample (apply sample) := (apply_exact sample rfl).1
 
 end Rules.EmptyDo
+/-! ## Worked instance 2 (timeout-relaxed): deleting `while false do … end`
+
+Not a darklua rule model — a minimal processor showing why `HooksLe true` exists: the deletion is
+NOT exactly sound (at loop budget `k = 0` the loop times out, its replacement does not), but it is
+sound up to budget exhaustion, and `runDefault_upto` lifts that to whole programs. -/
+namespace Demo.DropWhileFalse
+
+def stmtHook : Stmt → Unit → Stmt × Unit
+  | .while_ .false _, s => (.doBlock (.mk [] none), s)
+  | x, s => (x, s)
+
+def processor : Processor Unit := { stmt := stmtHook }
+
+theorem stmtHook_le (x : Stmt) (s : Unit) : LeS true x (stmtHook x s).1 := by
+  unfold stmtHook
+  split
+  · intro N call ρ k env σ
+    cases k with
+    | zero => left; exact ⟨rfl, by simp only [execS, whileLoop, Res.bind]⟩
+    | succ k => right; simp [execS, execB, execSs, whileLoop, evalE, Res.bind, first, Val.truthy]
+  · exact LeS.refl _
+
+theorem hooksLe : HooksLe true processor where
+  stmt := stmtHook_le
+
+/-- the hook is not exactly sound: budget 0 distinguishes the two statements -/
+theorem stmtHook_not_exact : ¬ EqS (.while_ .false (.mk [] none)) (stmtHook (.while_ .false (.mk [] none)) ()).1 := by
+  intro h
+  have h := h ⟨Unit, fun _ => (), fun _ => 0, fun _ _ => (), fun _ _ => (), fun _ _ => (), fun _ _ => (),
+      fun _ _ => (), fun _ _ => (), fun _ _ => (), fun _ => (), fun _ _ => false, fun _ _ => false,
+      fun _ _ => false, fun _ => false, fun _ => (), fun _ => none, fun _ => [], fun _ => none,
+      fun _ => (), fun _ => ()⟩
+    (fun _ _ _ => .timeout) (fun _ _ _ => []) 0 ⟨[], []⟩ ⟨[], [], [], [], []⟩
+  simp [stmtHook, execS, execB, execSs, whileLoop, Res.bind] at h
+
+/-- whole-program theorem: same outcome unless the original runs out of budget -/
+theorem run_upto (b : Block) {N : NumOps} (ρ : ExtOracle N) (n : Nat) (externs : List String) :
+    runProgram ρ n externs b = .timeout ∨
+      runProgram ρ n externs (Visitor.runDefault processor b ()).1 = runProgram ρ n externs b :=
+  Visitor.runDefault_upto hooksLe b () ρ n externs
+
+/-- non-vacuity: `local function g() while false do emit(1) end emit(2) end; g()` is rewritten -/
+def sample : Block :=
+  .mk [.localFn .loc "g" (.mk [] false none none [] []
+         (.mk [.while_ .false (.mk [.callStmt (.call (.var "emit") none .tuple [.num 1])] none),
+               .callStmt (.call (.var "emit") none .tuple [.num 2])] none)),
+       .callStmt (.call (.var "g") none .tuple [])] none
+
+example : (Visitor.runDefault processor sample ()).1 =
+    .mk [.localFn .loc "g" (.mk [] false none none [] []
+           (.mk [.doBlock (.mk [] none),
+                 .callStmt (.call (.var "emit") none .tuple [.num 2])] none)),
+         .callStmt (.call (.var "g") none .tuple [])] none := rfl
+
+end Demo.DropWhileFalse
 end DarkluaModel
